@@ -1165,6 +1165,7 @@ pub fn gen_c05(r: &mut Rng) -> (String, Sim) {
             c.acceptable = None;
             c.log_announce = 0;
             c.master_only = r.chance(1, 8);
+            c.p2p = r.chance(1, 3);
             c
         })
         .collect();
@@ -1223,6 +1224,28 @@ pub fn gen_c05(r: &mut Rng) -> (String, Sim) {
     }
     let rounds = 1 + r.below(3);
     let mut w = World::new(r, &sim, 1);
+    // a P2P port disabled by a peer delay fault (two responders to one Pdelay_Req): its
+    // Erbest must not become Ebest and the BMCA never takes it out of FAULTY
+    for p in 0..np {
+        if sim.cfgs[p].p2p && r.chance(2, 3) {
+            kinds.insert("prior-faulty");
+            if !sim.step(Ev::DelayReqTimer(p)) {
+                break;
+            }
+            w.observe(&sim);
+            let seq = w.last_pdelay_req[p].unwrap_or(0);
+            let t: u128 = (1_700_000_000u128 * NS) << 32;
+            for who in [0x4400_0000_0000_0000u64, 0x4500_0000_0000_0000] {
+                let (s, n) = wire_ts(t);
+                let mut body = ts10(s, n);
+                body.extend_from_slice(&pid10(own_clock, p as u16 + 1));
+                let h = w.hdr(PDELAY_RESP, who, 1, seq);
+                if !sim.step(Ev::RecvEvent(p, frame(&h, &body, &[]), t + (1000 << 32))) {
+                    break;
+                }
+            }
+        }
+    }
     'outer: for round in 0..rounds {
         if round > 0 {
             match r.below(5) {
@@ -1614,17 +1637,25 @@ pub fn gen_c15(r: &mut Rng) -> (String, Sim) {
             }
             6..=9 => Ev::AnnounceTimer(1 + r.below(np as u64 - 1) as usize),
             10 => Ev::Bmca,
-            _ => {
-                if r.chance(1, 2) {
-                    Ev::AnnounceTimer(0)
-                } else {
+            _ => match r.below(3) {
+                0 => Ev::AnnounceTimer(0),
+                1 => {
                     // the other master takes over: parent changes
                     w.masters[1].ann.prio1 = 5;
                     kinds.insert("takeover");
                     let f = w.announce_frame(1, &[]);
                     Ev::RecvGeneral(0, f)
                 }
-            }
+                _ => {
+                    // the clock itself becomes the best one: grandmaster take-over, the path
+                    // learned from the former parent has to be forgotten
+                    kinds.insert("gm");
+                    if !sim.step(Ev::SetClockQuality((6, 0x20, 1))) {
+                        break;
+                    }
+                    Ev::Bmca
+                }
+            },
         };
         if !sim.step(ev) {
             break;
@@ -1784,7 +1815,14 @@ pub fn gen_c12(r: &mut Rng) -> (String, Sim) {
     let mut host = Host::new(&sim);
     let prefix = r.below(25);
     for _ in 0..prefix {
-        let ev = if r.chance(1, 3) {
+        let ev = if np == 2 && r.chance(1, 6) {
+            // the second port hears the first port of its own clock: multiport rule, the
+            // block has to lapse after one announce interval of silence
+            let own = sim.icfg.clock_identity;
+            let h = w.hdr(ANNOUNCE, own, 1, r.below(50) as u16);
+            let a = w.masters[0].ann.clone();
+            Ev::RecvGeneral(1, frame(&h, &announce_body(&a), &[]))
+        } else if r.chance(1, 3) {
             // help reaching slave / faulty states
             match r.below(3) {
                 0 => {
